@@ -639,6 +639,29 @@ Proof.
     splits; auto; try lia.
     eapply frame_trans; [exact F1|]. eapply frame_trans; [exact F2|]. eapply frame_trans; [exact F3|].
     eapply frame_trans; [exact F4|]. exact F5.
+  - (* OBuild *)
+    destruct (new_slice h ix 0) as [h1 s] eqn:E1. destruct (new_slice h1 ms 0) as [h2 sm] eqn:E2.
+    destruct (alloc_map h2 c4) as [h3 a4] eqn:E3. destruct (alloc_map h3 c3) as [h4 a3] eqn:E4.
+    destruct (alloc_map h4 c2) as [h5 a2] eqn:E5. destruct (alloc_map h5 c1) as [h6 a1] eqn:E6.
+    new1 E1 (length h) Hn. assert (Hn1 : length h <= length h1) by lia. new1 E2 (length h) Hn1.
+    destruct (alloc_map_ok (length h) _ _ _ _ E3 ltac:(lia)) as (F3 & L3 & A3).
+    destruct (alloc_map_ok (length h) _ _ _ _ E4 ltac:(lia)) as (F4 & L4 & A4).
+    destruct (alloc_map_ok (length h) _ _ _ _ E5 ltac:(lia)) as (F5 & L5 & A5).
+    destruct (alloc_map_ok (length h) _ _ _ _ E6 ltac:(lia)) as (F6 & L6 & A6).
+    splits; cbn [idx mats v1 v2 v3 v4]; try lia.
+    + eapply frame_trans; [exact F|]. eapply frame_trans; [exact F0|]. eapply frame_trans; [exact F3|].
+      eapply frame_trans; [exact F4|]. eapply frame_trans; [exact F5|]. exact F6.
+    + unfold sl_ok; lia.
+    + unfold sl_ok; lia.
+    + exact A6.
+    + eapply amap_ok_mono; [|exact A5]; lia.
+    + eapply amap_ok_mono; [|exact A4]; lia.
+    + eapply amap_ok_mono; [|exact A3]; lia.
+  - (* OShareMats *)
+    destruct (nth_error p i) as [m|] eqn:Gi; auto. destruct (nth_error p j) as [src|] eqn:Gj; auto.
+    split; [auto|]. split; [lia|].
+    apply with_mats_ok; [eapply Hget; eauto|].
+    destruct (Hget _ _ _ Gj (le_n _)) as (_ & B & _). exact B.
 Qed.
 
 (* ---------------------------------------------------------------- states and histories *)
